@@ -244,6 +244,13 @@ var classes = []evid.Class{
 		td := jgen.TypeDesc{K: "struct", Fields: []jgen.FieldDesc{{Name: "N", Tag: &tg, T: jgen.TypeDesc{K: "number"}}}}
 		return one(td, nil, `{"N":"-0 "}`)
 	}},
+	{Name: "json-string-option-inner-text-checked-with-outer-flags", Witness: func() *evid.Failure {
+		// struct{S string `json:",string"`}: the quoted text "a<TAB>b" (raw control character once the outer
+		// escapes are resolved) is not a JSON string; encoding/json rejects it
+		tg := ",string"
+		td := jgen.TypeDesc{K: "struct", Fields: []jgen.FieldDesc{{Name: "S", Tag: &tg, T: jgen.TypeDesc{K: "string"}}}}
+		return one(td, nil, `{"S":"\"a\tb\""}`)
+	}},
 	{Name: clsEmbedDepth, Witness: func() *evid.Failure {
 		// struct{ EmbA; Deep }: encoding/json resolves "A" to the shallower EmbA.A (an int) and rejects
 		// {"A":{}}; the library treats A as ambiguous, ignores the key and accepts.
